@@ -152,4 +152,38 @@ theorem verdict_independent_of_scratch (U : Unicode) (hU : U.WF) (d1 d2 d3 d4 d5
   rw [(de25 U hU d1 d2 d3 d4 d5 d6 d7 d8 d9 d10 h1 h2 h3 h4 h5 h6 h7 h8 h9 h10 sc).2,
     (de25 U hU d1 d2 d3 d4 d5 d6 d7 d8 d9 d10 h1 h2 h3 h4 h5 h6 h7 h8 h9 h10 sc').2]
 
+/-- "The method of its bank": the dispatch reads the FIRST entry listed for the bank code.  When all
+    entries listed for the pair name the same method (or none names one), that is the method every
+    listed entry names — for every registry. -/
+theorem first_entry_names_the_method (R : Registry) (cc code : Str) (l : List BankEntry)
+    (h : R.byBankCode cc code = some l)
+    (hu : ∀ x ∈ l, ∀ y ∈ l, x.checksumAlgo = y.checksumAlgo) :
+    ∃ e t, l = e :: t ∧
+      ∀ x ∈ R, x.countryCode = cc → x.bankCode = code → x.checksumAlgo = e.checksumAlgo := by
+  unfold Registry.byBankCode at h
+  split at h
+  · cases h
+  · split at h
+    · cases h
+    · rename_i l' hne
+      injection h with h
+      subst h
+      cases hl : R.filter (fun e => e.countryCode == cc && e.bankCode == code) with
+      | nil => exact absurd hl (by simpa using hne)
+      | cons e t =>
+        refine ⟨e, t, rfl, ?_⟩
+        intro x hx hc hb
+        have hxl : x ∈ e :: t := by
+          rw [← hl, List.mem_filter]
+          exact ⟨hx, by simp [hc, hb]⟩
+        exact hu x (hl ▸ hxl) e (hl ▸ List.mem_cons_self)
+
+/-- All `checksum_algo` values listed for one bank code agree. -/
+def methodsAgree (ms : List Nat) : Bool := ms.all (fun m => some m == ms.head?)
+
+/-- Instance obligation on the regenerated registry: for every German bank code, all listed entries
+    name the same method (or none does), so "the method of the bank" is the first entry's. -/
+theorem live_de_methods_agree : Gen.deMethods.all (fun p => methodsAgree p.2) = true := by
+  decide +kernel
+
 end SV.Props.C07
